@@ -508,3 +508,7 @@ mod tests {
         quickcheck(prop as fn(_))
     }
 }
+
+#[cfg(libp2p_verif)]
+#[path = "verif_c15.rs"]
+pub mod verif_c15;
